@@ -44,7 +44,8 @@ def run_engine(ctx, path, cases, tag):
             f.write(json.dumps(c) + "\n")
     if os.path.exists(fout):
         os.remove(fout)
-    rc, log = ctx.run_bin(path, ["-test.run", "TestVerifChainDBEngine"], env={"VERIF_IN": fin, "VERIF_OUT": fout}, timeout=1700)
+    rc, log = ctx.run_bin(path, ["-test.run", "TestVerifChainDBEngine", "-test.timeout", "0"], env={"VERIF_IN": fin, "VERIF_OUT": fout},
+                          timeout=(240 if ctx.tier == "quick" else 1700))
     if rc != 0 or not os.path.exists(fout):
         prog = ""
         if os.path.exists(fout + ".progress"):
